@@ -100,6 +100,11 @@ COVERAGE_PATTERNS = [
     # white space INSIDE a quoted section is data: CR LF pairs, runs of spaces, tabs (a normalisation of the
     # literal before parsing - CRLF -> LF, collapsed spaces, trimming - changes the bytes)
     "68 * \"OK\r\n\" 00", "\"a  b   c\" 00", "\"\r\n\r\n\" \" \t \"", "\"  \" \"\n\r\" 00", "E8 \" x \"",
+    # atom counts around 2^8 and beyond (Save(0) + n bytes: 256, 257, 301, 1001 atoms): the embedded array has
+    # every atom whatever the count; text beyond Latin-1 (two- and three-byte UTF-8 sequences)
+    " ".join("%02X" % (i & 0xFF) for i in range(255)), " ".join("%02X" % (i & 0xFF) for i in range(256)),
+    " ".join("%02X" % ((7 * i) & 0xFF) for i in range(300)), " ".join("%02X" % ((3 * i) & 0xFF) for i in range(1000)),
+    "b8 * \"\u0141\u00f3d\u017a \u65e5\u672c\" 00",
 ]
 
 
